@@ -91,44 +91,58 @@ func ruleMerge(r *Run) {
 	r.Min("merge_functions", len(merges), 2)
 	// who is the child? determined at the call sites inside the based-on resolver: the
 	// argument derived from the recursive call's result is the parent.
-	resolver := p.Func(pkgSty, "(*StyleManager).GetStyleWithInheritance")
-	if resolver == nil {
-		r.Unresolved("style.(*StyleManager).GetStyleWithInheritance")
-		return
-	}
+	// the resolver is whoever calls a merge function with one argument obtained by resolving the
+	// parent recursively (role, not name)
 	childIdx := map[*ssa.Function]int{}
-	allInstrs(resolver, func(in ssa.Instruction) {
-		c, ok := in.(*ssa.Call)
-		if !ok {
-			return
+	recursiveParent := map[*ssa.Function]bool{}
+	isMergeFn := map[*ssa.Function]bool{}
+	for _, m := range merges {
+		isMergeFn[m] = true
+	}
+	for _, resolver := range p.ModFuncs() {
+		if resolver.Pkg == nil || resolver.Pkg.Pkg.Path() != pkgSty {
+			continue
 		}
-		cal := staticCallee(c)
-		isMerge := false
-		for _, m := range merges {
-			if m == cal {
-				isMerge = true
+		allInstrs(resolver, func(in ssa.Instruction) {
+			c, ok := in.(*ssa.Call)
+			if !ok {
+				return
 			}
-		}
-		if !isMerge {
-			return
-		}
-		for i, a := range c.Call.Args {
-			fromRec := false
-			for rt := range rootsOf(a) {
-				if rc, ok := rt.(*ssa.Call); ok && staticCallee(rc) == resolver {
-					fromRec = true
+			cal := staticCallee(c)
+			if !isMergeFn[cal] {
+				return
+			}
+			for i, a := range c.Call.Args {
+				fromRec := false
+				for rt := range rootsOf(a) {
+					if rc, ok := rt.(*ssa.Call); ok {
+						if rcal := staticCallee(rc); rcal != nil && (rcal == resolver || p.staticReach(rcal)[resolver]) {
+							fromRec = true
+						}
+					}
+				}
+				if fromRec {
+					recursiveParent[cal] = true
+				} else {
+					childIdx[cal] = i
 				}
 			}
-			if !fromRec {
-				childIdx[cal] = i
+		})
+	}
+	for _, m := range merges {
+		if _, called := childIdx[m]; called {
+			r.Check("resolve-recursive", shortName(m), m.Pos(), recursiveParent[m],
+				"the parent handed to "+shortName(m)+" must itself be resolved with inheritance (result of the recursive resolution), otherwise settings of grandparents are lost")
+			if !recursiveParent[m] {
+				delete(childIdx, m)
 			}
 		}
-	})
+	}
 	nf := 0
 	for _, fn := range merges {
 		ci, ok := childIdx[fn]
 		if !ok {
-			r.Undecided("merge-prec", shortName(fn), fn.Pos(), "cannot tell which argument is the child style: not called from GetStyleWithInheritance with one argument derived from the recursive result")
+			r.Undecided("merge-prec", shortName(fn), fn.Pos(), "cannot tell which argument is the child style: no caller passes one argument derived from a recursive resolution")
 			continue
 		}
 		child, parent := ssa.Value(fn.Params[ci]), ssa.Value(fn.Params[1-ci])
